@@ -292,6 +292,28 @@ func (r *c14Runner) Do(op []string) string {
 		return showMap(gogu.MapKeys(r.mkMap(op[1]), c14G(op[2])))
 	case "invert":
 		return showMap(gogu.Invert(r.mkMap(op[1])))
+	case "invertany", "mapuniqueany":
+		// the same helpers instantiated with V = any: value 2k becomes the string "2k+1", value 2k+1 stays an int,
+		// so distinct values can print alike (fmt) while they differ under ==; the answer is decoded back
+		m := r.mkMap(op[1])
+		var ma map[int]any
+		if m != nil {
+			ma = make(map[int]any, len(m))
+			for k, v := range m {
+				ma[k] = encAny(v)
+			}
+		}
+		out := map[int]int{}
+		if op[0] == "invertany" {
+			for v, k := range gogu.Invert(ma) {
+				out[decAny(v)] = k
+			}
+		} else {
+			for k, v := range gogu.MapUnique(ma) {
+				out[k] = decAny(v)
+			}
+		}
+		return showMap(out)
 	case "find":
 		return showMap(gogu.Find(r.mkMap(op[1]), c14P(op[2])))
 	case "findkey":
@@ -409,6 +431,9 @@ func c14MapOps(m string, keyLists []string, probeVals []int, reps int) []string 
 			ops = append(ops, "findkey "+m+" "+p, "findbykey "+m+" "+p)
 		}
 		ops = append(ops, "invert "+m, "mapunique "+m)
+		if m != "nil" && rep == 0 {
+			ops = append(ops, "invertany "+m, "mapuniqueany "+m)
+		}
 	}
 	return ops
 }
